@@ -103,6 +103,8 @@ def document(cls, units, variant, numdepth=3):
                 s += ' \\begin{enumerate}\\item x\\item\\label{li1} y\\end{enumerate} \\ref{le0}\\pageref{lb0}\\index{alpha}'
             if i == k - 1:
                 s += '\n\n\\index{gamma}\\index{alpha}\n\n'       # index entries that form a paragraph of their own
+                # initials that transliterate to two letters, next to entries of the same letter group
+                s += ' \\index{\\AE ther}\\index{abacus}\\index{afar}\\index{\\OE uvre}\\index{omega}\\index{3D}'
                 s += ' z\\footnote{fqbz} v\\footnote{fqsz}\\index{\\_ua}\\index{\\_ub} \\begin{equation}c\\label{le9}\\end{equation}\\ref{le9}'
         parts.append(s + '\n\n')
     tail = ''
